@@ -184,7 +184,11 @@ def run_case(case):
                 iface.run_bldfm_single = real_single_iface
             counters["driver_runs"] += 1
             idx = [c[1] for c in calls]
-            if idx != list(range(exp[1])) or len(res) != exp[1] or [c[2] for c in calls] != exp[2]:
+            # judged on what comes back (one entry per step, carrying that step's entries, scalars and timestamp); which index the
+            # driver hands to the single run is its own business and only recorded
+            if idx != list(range(exp[1])):
+                counters["driver_runs_with_other_index_sequence"] = counters.get("driver_runs_with_other_index_sequence", 0) + 1
+            if len(res) != exp[1] or [r_.get("params") for r_ in res] != exp[2] or [r_.get("timestamp") for r_ in res] != [st_["timestamp"] for st_ in exp[2]]:
                 viol.append({"what": "driver_iterations", "driver": "run_bldfm_timeseries", "met": met, "indices": idx,
                              "expected": exp[1], "label": label})
             # the same series with entries that recur (wind direction coming back to an earlier value, a constant list): every step is
@@ -235,7 +239,7 @@ def run_case(case):
                     finally:
                         cli.run_bldfm_single = real_single_cli
                     counters["cli_runs"] += 1
-                    if [c[1] for c in calls] != list(range(exp[1])):
+                    if [c[2] for c in calls] != exp[2]:  # the steps that were run, by content (the CLI returns nothing to look at)
                         viol.append({"what": "driver_iterations", "driver": "cli.cmd_run", "met": met,
                                      "indices": [c[1] for c in calls], "expected": exp[1], "label": label})
         if len(samples) < 2 and nontrivial:
